@@ -81,6 +81,29 @@ def handle (toks : List String) : Option String :=
       let p := verifyNsec3 asIs H base32hex q qt soa rc wl recs soft hard
       pure (showProof p ++ " " ++ classOf H base32hex q qt soa rc wl recs soft hard)
     | [] => none
+  | "vx" :: bits :: q :: qt :: soa :: rc :: wl :: soft :: hard :: n :: rest => do
+    -- the model with the repairs `bits` = apex,wrap,optout,deleg,wild (each 0/1) switched on: used to
+    -- validate repo-patches/C09-*.diff against a patched copy of the repository
+    let fx : Fixes ← match bits.toList with
+      | [a, w, o, d, x] => some { apex := a == '1', wrap := w == '1', optout := o == '1',
+                                  deleg := d == '1', wild := x == '1' }
+      | _ => none
+    let q ← parseName q
+    let qt ← qt.toNat?
+    let soa ← parseOptName soa
+    let rc ← rc.toNat?
+    let wl ← parseOptNat wl
+    let soft ← soft.toNat?
+    let hard ← hard.toNat?
+    let n ← n.toNat?
+    let (recs, rest) ← parseRecs n rest
+    match rest with
+    | m :: rest =>
+      let m ← m.toNat?
+      let tbl ← parseTable m rest
+      if recs.isEmpty then pure "panic" else
+      pure (showProof (verifyNsec3 fx (tableH tbl) base32hex q qt soa rc wl recs soft hard))
+    | [] => none
   | ["b32", x] => do
     let x ← parseHex x
     pure (toHex (base32hex x))
